@@ -1,4 +1,7 @@
+#[cfg(not(walrus_verif))]
 use std::sync::mpsc;
+#[cfg(walrus_verif)]
+use crate::wal::verif::sync::mpsc;
 use std::sync::{Arc, OnceLock};
 
 mod allocator;
@@ -18,3 +21,11 @@ pub use index::{BlockPos, WalIndex};
 pub use walrus::{ReadConsistency, Walrus};
 
 pub(super) static DELETION_TX: OnceLock<Arc<mpsc::Sender<String>>> = OnceLock::new();
+
+#[cfg(walrus_verif)]
+pub(crate) fn verif_reclaim_snapshot() -> (
+    Vec<crate::wal::verif::FileStateRow>,
+    Vec<crate::wal::verif::BlockStateRow>,
+) {
+    allocator::verif_reclaim_snapshot()
+}
